@@ -108,7 +108,9 @@ def _cases(draw, tier):
         elif k == "un":
             steps.append({"k": k, "op": draw(st.sampled_from(uns)), "i": draw(idx)})
         elif k == "num":
-            steps.append({"k": k, "op": draw(st.sampled_from(NUMOPS if not big else ["gp", "add", "sub", "op", "ip"])), "i": draw(idx), "num": draw(S.fracs(nonzero=True)),
+            steps.append({"k": k, "op": draw(st.sampled_from(NUMOPS if not big else ["gp", "add", "sub", "op", "ip"])), "i": draw(idx),
+                          "num": draw(st.sampled_from(["2", "1/2", "1", "-3", "2", "1/2"])),
+                          "ntype": draw(st.sampled_from(["Fraction", "int", "float", "bool", "sympy", "np.float64"])),
                           "side": draw(st.sampled_from(["l", "r"]))})
         elif k == "list":
             steps.append({"k": k, "op": draw(st.sampled_from(["gp", "op", "sw", "add"] if not big else ["gp", "op", "add"])), "i": draw(idx),
@@ -207,6 +209,25 @@ def _elem(x):
     return {k: v for k, v in kd.to_dict(x, op="history").items() if v != 0}
 
 
+def _number(step):
+    """The same numeric value as different Python / numpy / sympy number types (2 == 2.0 == True+1 ... compare and hash equal)."""
+    v = frac(step["num"])
+    t = step.get("ntype", "Fraction")
+    if t == "int" and v.denominator == 1:
+        return int(v)
+    if t == "bool" and v == 1:
+        return True
+    if t == "float":
+        return float(v)
+    if t == "np.float64":
+        import numpy as np
+        return np.float64(float(v))
+    if t == "sympy":
+        import sympy
+        return sympy.Rational(v.numerator, v.denominator)
+    return v
+
+
 def run_step(env: Env, step, made, fixed_slot=None):
     """Execute one step.  Returns ('ok', element(s)) | ('exc', class name) | ('skip', None).  Appends every multivector
     the step returned to `made`."""
@@ -218,7 +239,7 @@ def run_step(env: Env, step, made, fixed_slot=None):
         elif k == "un":
             r = getattr(P[step["i"]], step["op"])()
         elif k == "num":
-            num = frac(step["num"])
+            num = _number(step)
             x = P[step["i"]]
             fn = getattr(env.alg, step["op"])
             r = fn(num, x) if step["side"] == "l" else fn(x, num)
